@@ -11,31 +11,31 @@ def prop(pid, text, note, design, na=None):
     P[pid] = dict(text=text, note=note, design=design, na=na)
 
 prop('C01', "Per-step hand-shake contracts on the real functions, for all state words and all interleavings of other threads' writes (interference model): a drainer never unlocks over an un-acknowledged DIRTY (drain_try_unlock); a refused lock only dequeues (drain_try_lock); a reader giving back width re-drives or hands over (non_barrier_complete, concurrent_push); barrier completion hands off / releases readers / re-drives (lane_barrier_complete); thread requests are accounted exactly (root_queue_poke_slow, 3 loop contracts); resume re-drives (lane_resume); the push that makes a queue non-empty retains before publishing and always wakes it with MAKE_DIRTY (lane_push, lane_push_waiter); a wakeup enqueues-and-pushes exactly when nobody else is responsible and otherwise leaves the obligation with the enqueued item, the lock owner (DIRTY) or resume (queue_wakeup); a barrier owner never unlocks over DIRTY without a re-drive (lane_class_barrier_complete). Liveness over whole traces is NOT proved: the composition over all writers of dq_state is argued in DESIGN.md 5/C01 only.",
-     "root-queue drain/worker threads, workqueue monitor, _dispatch_lane_invoke/_dispatch_queue_class_invoke: no contract (stubbed by logging stubs where called). OS scheduler, futex delivery. b_lane_drain is a bounded stand-in (2 items).", "5/C01, 10.3")
+     "Root-queue side now under contract too: _dispatch_root_queue_drain_one (no double dequeue via the MEDIATOR exchange, head handed on with one poke, three retry cut points), _dispatch_root_queue_drain, _dispatch_worker_thread (exit re-pokes after giving its slot back), _dispatch_workq_monitor_pools (stalled pool gets one thread beyond its limit), plus _dispatch_lane_invoke, _dispatch_queue_invoke_finish, _dispatch_async_and_wait_invoke, _dispatch_lane_barrier_sync_invoke_and_complete. Still without contract: _dispatch_lane_invoke2 / _dispatch_lane_serial_drain (b_lane_drain is a bounded stand-in, <= 3 items), the work-queue tid table, workloops. OS scheduler, futex delivery trusted.", "5/C01, 10.3")
 prop('C02', "Contracts on every transition that takes or gives the drain lock / barrier bit: lock only from an unowned, unsuspended state; barrier-sync fast path only from the completely idle state; unlock gives back exactly what was owned; a drain pops only from the head and stops at a sync waiter (bounded); recursion unlock walk never releases the stop queue (bounded); the public sync entry points decide the barrier flag first (dispatch_sync / barrier_sync / async_and_wait / barrier_async_and_wait: serial queue => always a barrier).",
      "Exclusion is per transition (guarantee side of rely/guarantee; the rely is the guarantee of the other contracts, not composed mechanically). _dispatch_barrier_sync_f_inline / _dispatch_sync_f_inline not under contract.", "5/C02, 10.3")
 prop('C03', "Role of a queue is INNER unless its target is a root queue (inherit_wlh_from_target); retargeting only under a suspension with the new target retained first (set_target_queue, try_inactive_suspend); role recomputed from the actual target at activation and on a legacy retarget (lane_activate, legacy_set_target_queue); dispatch_get_specific / dispatch_assert_queue walk exactly the chain (bounded); sync slow path runs the item with the frame of the queue submitted to; a drain stops when the queue was retargeted (bounded); hierarchy unlock walk (bounded).",
-     "_dispatch_sync_recurse, _dispatch_lane_invoke2 and workloops have no contract; chain-walking loops are bounded stand-ins (depth 2-3).", "5/C03, 10.3")
+     "_dispatch_sync_recurse (summary nodes + loop contract: any depth), _dispatch_queue_priority_inherit_from_target and _dispatch_lane_legacy_set_target_queue (incl. redundant retarget) are under contract; _dispatch_lane_invoke2 and workloops have no contract; some chain-walking loops are bounded stand-ins (depth 2-3).", "5/C03, 10.3")
 prop('C04', "Width accounting contracts: reader fast paths refuse under IN_BARRIER / PENDING_BARRIER / DIRTY / suspension and add exactly one unit; upgrade to a barrier succeeds iff nobody else holds width; last reader takes over for a pending barrier; async bypass only with nothing queued; apply reserves and gives back exactly what it took.",
-     "The accounting invariant (width field == units held) is a rely clause justified by the guarantees of the same contracts; _dispatch_lane_drain_non_barriers has no contract.", "5/C04, 10.3")
+     "The accounting invariant (width field == units held) is a rely clause justified by the guarantees of the same contracts; _dispatch_lane_drain_non_barriers is under contract (every started reader is backed by one unit of width, exactly the unused part is given back; loop contract + cut point); barrier block objects become barrier items (_dispatch_continuation_init_slow).", "5/C04, 10.3")
 prop('C05', "Sequencing and memory-order obligations read off the ghost commit log of every contract of C01-C10/C19: ownership-releasing commits are release or stronger, acquiring ones acquire or stronger, client call-outs precede the releasing commit; the thread event (parking primitive of dispatch_sync / apply waiters) is signalled by one release increment and a waiter returns only after an ACQUIRE read observed the signal (thread_event_signal / thread_event_wait, loop contract).",
      "Only annotations and program order inside one call are checked; the C11 / hardware memory model and the compiler's mapping of the annotations are trusted. futex syscalls trusted.", "5/C05, 10.3")
 prop('C06', "Suspend / resume / activate transition contracts on dq_state including the side-count spill (total count changes by exactly one; last resume re-drives; activation only from inactive); every lock / fast path / hand-off refuses suspended or inactive states.",
      "Side-lock implementation trusted; nesting over whole histories is not composed mechanically.", "5/C06, 10.3")
 prop('C07', "dg_state transition contracts for enter / leave (loop contract) / wait / wait_slow (loop contract) / notify, generation-carry lemma proved from the leave contract; wake list walk bounded (3 notifications).",
-     "futex wait/wake trusted; notify list longer than 3 not covered by the bounded wake check.", "5/C07, 10.3")
+     "The futex system call is a kernel model (h_wait_on_address: timeout only when the kernel wait timed out, a timed wait is issued once with the remaining time; h_wake_by_address: one private wake of all waiters); dispatch_group_async and the group-leaving invoke path (_dispatch_continuation_with_group_invoke) are under contract; notify list longer than 3 not covered by the bounded wake check.", "5/C07, 10.3")
 prop('C08', "dsema_value contracts for signal / wait / wait_slow (timeout undoes exactly its own decrement or consumes the pending wake; EINTR is retried, timeout only on ETIMEDOUT), remaining-interval computation, permit-conservation lemma.",
      "Kernel semaphore semantics trusted; timespec split by 10^9 undecided (64-bit division, solver limit).", "5/C08, 10.3")
 prop('C09', "Once-gate contracts: tryenter CAS from 0 only, initializer called once between the CAS and the release publish of DONE, broadcast wakes ALL waiters iff any, a waiter returns only after reading DONE (2 loop contracts), inline fast path skips only on DONE; three-state lemma.",
-     "futex trusted.", "5/C09, 10.3")
+     "The futex system call is a kernel model (h_wake_by_address, h_wait_on_address); the owner value of the calling thread is never the unlocked value, also for a thread entering libdispatch for the first time (h_lock_value_for_self).", "5/C09, 10.3")
 prop('C10', "dispatch_apply contracts: serial loop invariant (index k called k-th, exactly n calls, unbounded n), index-claim contract of _dispatch_apply_invoke2 (each claimed index called once, caller waits for completion before returning), width reserve / relinquish arithmetic; redirect walk bounded.",
-     "Helper thread scheduling; _dispatch_apply_f (helper submission to the root queue) not under contract; dispatch_apply_f: worker count, descriptor and serial / redirect / root dispatch decided (h_dispatch_apply_f).", "5/C10, 10.3")
+     "Helper thread scheduling trusted; _dispatch_apply_f (helper submission) and dispatch_apply_f (worker count, descriptor, serial / redirect / root dispatch, never a direct call of the runners) are under contract; the caller's wait is the thread-event contract (h_thread_event_wait, shared with C05).", "5/C10, 10.3")
 prop('C11', "Timer contracts: configuration arithmetic (interval >= 1, leeway <= interval/2, deadline = target + leeway saturating and never before the target, clock of the start time: timer_config_create), re-configuration replaces the settings and drops old fire counts, +2 reference balance while armed (timer_unote_configure / resume), no elapsed interval reported before its boundary (source_timer_data), heap index algebra lemma; heap order after removal as bounded stand-in in the thorough tier (6 timers).",
-     "_dispatch_timers_run (harness written but parked: every back end times out, DESIGN.md 10.7), _dispatch_after, program/delay and the division in compute_missed have no decided contract; kernel timer trusted.", "5/C11, 10.3")
+     "_dispatch_timers_run (harness written but parked: every back end times out, DESIGN.md 10.7) and the division in compute_missed have no decided contract; _dispatch_after, dispatch_source_set_timer, _dispatch_event_loop_drain_timers (never returns leaving a due timer unarmed; three loop contracts), _dispatch_timers_program and the clock readers (_dispatch_time_now) are under contract; kernel timer trusted.", "5/C11, 10.3")
 prop('C12', "Full functional contracts of dispatch_time, dispatch_walltime, _dispatch_timeout, the encode/decode pair and _dispatch_time_nanoseconds_since_epoch over all 2^64 bases x 2^64 deltas (loop-free, complete), plus a monotonicity lemma proved from the contract of dispatch_time.",
      "Clock sources stubbed (arbitrary reading in range); tv_sec*10^9 uses the same compiler builtin in code and spec (multiplier equivalence is beyond SAT), cross-checked by a bounded harness on 16 boundary values.", "5/C12, 10.3")
 prop('C13', "Subrange on leaves (complete) and on composites (<= 4 records, loop contracts over ghost prefix sums: every result record denotes the same bytes of the same leaf, one retain per referenced leaf, nothing outside the source view), copy_region on directly mappable objects, create_map (contiguous object maps to itself, composite to a fresh flat copy of the same size), data_flatten (every region copied to its own offset, unbounded number of regions), data_apply and create_concat (bounded: <= 4 records).",
-     "create, dispose and copy_region on composites have no contract; memcpy and allocator trusted. Composite subrange, apply and concat are bounded (records <= 4).", "5/C13, 10.3")
+     "dispatch_data_create (all destructor kinds, empty requests), _dispatch_data_dispose (incl. the munmap marker: genuine defect found and fixed, e911298) and the dispatch_data_copy_region entry point are under contract; copy_region's walk over composites is bounded; memcpy and allocator trusted. Composite subrange, apply and concat are bounded (records <= 4); b_subrange_composite_unwound (thorough) re-checks the subrange contract with the loops unwound.", "5/C13, 10.3")
 prop('C14', "Per-step contracts of the dispatch I/O operation machinery over a RANGE MODEL of data objects (each object = the stream positions it denotes): perform (read and write: buffer sizing within high water / chunk / length, the one transfer targets exactly the free part of the buffer, bytes accounted once, outcome classification, no transfer on a stopped channel), deliver_data (read and write: every byte handed over once, in order, <= high water, low-water filter, done exactly on the last invocation, channel and fd entry held until the handler returned), dispose (done delivered once, before leaving the barrier group), stream pick / handler (current stream operation continued, oldest first, outcome -> action), operation_enqueue (closed channel => one done invocation with ECANCELED; accepted operation enters the barrier group first), io_barrier, io_init (cleanup handler posted once behind the close queue), io_close / stop, operation_create (immediate completion still ordered through the barrier queue), stream_cleanup_operations (bounded: exactly the stopped channel's operations).",
      "Kernel transfer = 0..len bytes or errno (assumed); data API replaced by stubs implementing its C13 contract; blocks posted with dispatch_async / dispatch_group_notify are lowered in place (evaluated where created): that each runs once, later, on its queue is C02/C07. Disk (pick-queue) path, convenience API dispatch_read/dispatch_write, fd-entry creation/close and epoll sources have no contract.", "5/C14, 10.3")
 prop('C15', "Merge / latch step contracts on ds_pending_data: one atomic update + exactly one MAKE_DIRTY wakeup per merge; latch is one exchange with 0, the handler sees exactly the removed value, never 0; handler call-out only when armed and not cancelled.",
@@ -45,7 +45,7 @@ prop('C16', "Cancel contracts: first cancel sets the flag once and wakes the sou
 prop('C17', "Reference-count step contracts (retain/release arithmetic, dispose exactly at -1, over-release and resurrection crash) and per-function reference-balance clauses in the contracts of the other properties (set_target_queue, timer resume, deliver_data, operation_dispose...).",
      "Whole-history lifetime (no use after the last release) is not decidable by per-function contracts and is not claimed.", "5/C17, 10.3")
 prop('C18', "dispatch_get_global_queue as a total function of its two arguments + injectivity lemma; attribute table encode/decode bijection over all entries (to_info, from_info, 4 constructors, round-trip lemma); sync slow path keeps the submitted-to queue current; queue-specific table installed only by CAS from NULL, get_specific returns the nearest value of the chain, assert_queue / assert_queue_not accept / reject exactly the chain (bounded).",
-     "dispatch_queue_set_specific not under contract; chain walks are bounded stand-ins (<= 3 queues).", "5/C18, 10.3")
+     "dispatch_queue_set_specific is a bounded stand-in; chain walks are bounded stand-ins (<= 3 queues); dispatch_apply_f never runs the iterations by a direct call that skips the queue frame (h_dispatch_apply_f).", "5/C18, 10.3")
 prop('C19', "Block-object contracts: body skipped iff cancelled before start, group left exactly once at first completion even when cancelled, wait touches only its own flag bits and is undone on timeout, cancel sets the flag once; direct invocation has the same life cycle (invoke_direct); notify registers exactly once on the private group.",
      "Blocks runtime / block.cpp (C++) out of reach of CBMC's front end; dispatch_block_create / _dispatch_block_create_with_voucher_and_priority (Blocks ABI) have no contract.", "5/C19, 10.3")
 prop('C20', "Codec tables are inverse and inside the size the decoder checks (lemma on the real tables), UTF-8 sequence reader contract, subrange-map helper contract; Base64 / Base32 / Base32Hex decoders, Base64 encoder and (thorough) UTF-16 decoder equal a reference codec for EVERY fragmentation of the input into <= 3 regions (bounded: <= 9 resp. 6 bytes), output never longer than the buffer allocated; Base32 encoder (bounded) and (thorough) UTF-8 -> UTF-16 encoder incl. output-accepted-by-the-inverse-or-NULL for arbitrary bytes.",
